@@ -5,6 +5,7 @@ def unsafe_decode(string):
   return gfapy.OrientedLine(string[:-1], string[-1])
 
 def decode(string):
+  validate_encoded(string)
   obj = unsafe_decode(string)
   validate_decoded(obj)
   return obj
